@@ -23,6 +23,7 @@ import (
 	"sync"
 	"testing"
 	"testing/cryptotest"
+	realtime "time"
 
 	"dario.cat/mergo"
 	"github.com/slackhq/nebula/cert"
@@ -70,11 +71,11 @@ type vconn struct {
 	writeErr func(to netip.AddrPort) error
 }
 
-func (c *vconn) Rebind() error                       { return nil }
-func (c *vconn) LocalAddr() (netip.AddrPort, error)  { return c.addr, nil }
+func (c *vconn) Rebind() error                         { return nil }
+func (c *vconn) LocalAddr() (netip.AddrPort, error)    { return c.addr, nil }
 func (c *vconn) ListenOut(udp.EncReader, func()) error { return nil }
-func (c *vconn) SupportsMultipleReaders() bool       { return false }
-func (c *vconn) ReloadConfig(*config.C)              {}
+func (c *vconn) SupportsMultipleReaders() bool         { return false }
+func (c *vconn) ReloadConfig(*config.C)                {}
 func (c *vconn) Close() error {
 	c.mu.Lock()
 	c.closed = true
@@ -101,6 +102,7 @@ func (c *vconn) WriteBatch(bufs [][]byte, addrs []netip.AddrPort) (int, error) {
 	}
 	return n, nil
 }
+
 // takeAll drains every routine's socket of a node.
 func (n *vnode) takeOut() []vpkt {
 	var o []vpkt
@@ -145,10 +147,10 @@ type vtun struct {
 	routes func(netip.Addr) routing.Gateways
 }
 
-func (t *vtun) Close() error              { t.closed = true; return nil }
-func (t *vtun) Activate() error           { return nil }
-func (t *vtun) Networks() []netip.Prefix  { return t.nets }
-func (t *vtun) Name() string              { return "vtun" }
+func (t *vtun) Close() error             { t.closed = true; return nil }
+func (t *vtun) Activate() error          { return nil }
+func (t *vtun) Networks() []netip.Prefix { return t.nets }
+func (t *vtun) Name() string             { return "vtun" }
 func (t *vtun) Queues(int) ([]tio.Queue, error) {
 	out := make([]tio.Queue, len(t.qs))
 	for i, q := range t.qs {
@@ -236,7 +238,7 @@ type vnodeSpec struct {
 	Groups    []string
 	Udp       string // "192.0.2.1:4242"
 	Version   cert.Version
-	Overrides m // merged over the default config
+	Overrides m   // merged over the default config
 	Routines  int // number of rx/tx routines (queues, sockets, rx contexts); default 1
 }
 
@@ -356,10 +358,13 @@ func vNewNode(tb testing.TB, spec vnodeSpec) *vnode {
 	if err != nil {
 		tb.Fatalf("lighthouse: %v", err)
 	}
-	for i := 0; runtime.NumGoroutine() > before; i++ {
+	for i, t0 := 0, realtime.Now(); runtime.NumGoroutine() > before; i++ {
 		runtime.Gosched()
-		if i > 1_000_000 {
-			tb.Fatalf("lighthouse query worker did not exit")
+		if i > 1000 {
+			realtime.Sleep(20 * realtime.Microsecond) // heavily loaded machine: give the worker a real chance to run
+		}
+		if realtime.Since(t0) > 120*realtime.Second {
+			tb.Fatalf("lighthouse query worker did not exit within 120s")
 		}
 	}
 
@@ -596,7 +601,7 @@ type vnet struct {
 	tb       testing.TB
 	nodes    []*vnode
 	byUDP    map[netip.Addr]*vnode
-	inflight []vpkt // datagrams written and not yet delivered/dropped, in emission order
+	inflight []vpkt              // datagrams written and not yet delivered/dropped, in emission order
 	tunLog   map[string][][]byte // per node name: packets written to the tun so far
 	wire     [][]byte            // every datagram ever emitted (for determinism checks)
 }
